@@ -69,11 +69,13 @@ ClassOK(r, dest, op) == LET e == r.res[dest][op] IN Has(e, "flat") => e.cls = "U
 GridOK(r, dest, op)  == LET e == r.res[dest][op] IN Has(e, "flat") => e.same
 Accepted(r, dest, op) == Has(r.res[dest][op], "flat")
 
+\* records of history steps carry only the destinations that were aggregated (r.dests)
+DestsOf(r) == IF Has(r, "dests") THEN { d \in Dests : \E k \in 1..Len(r.dests) : r.dests[k] = d } ELSE Dests
 Failed(r) ==
     LET sane  == EdgeTableSane(r)
-        ds    == IF sane THEN Dests ELSE { "face" }
+        ds    == IF sane THEN DestsOf(r) ELSE DestsOf(r) \cap { "face" }
         pairs == { << op, d >> : op \in Ops, d \in ds }
-        every == { << op, d >> : op \in Ops, d \in Dests }
+        every == { << op, d >> : op \in Ops, d \in DestsOf(r) }
     IN (IF sane THEN {} ELSE { "EdgeTableSane" })
        \cup { "Value_" \o c[1] \o "_" \o c[2] : c \in { x \in pairs : ~ValueOK(r, x[2], x[1]) } }
        \cup { "Dims_" \o d     : d \in { x \in ds : \E op \in Ops : ~DimsOK(r, x, op) } }
@@ -85,6 +87,11 @@ Failed(r) ==
        \cup (IF \A k \in 1..Len(r.unsup) : Supported(r.unsup[k].src, r.unsup[k].dst) => ~r.unsup[k].raised
              THEN {} ELSE { "AcceptsSupported" })
 
+\* coverage facts decided here: all faces of one size in a table wider than that size; mixed sizes
+UniformInWiderTable(r) == Has(r, "width") /\ Cardinality({ Len(r.mesh[f]) : f \in 1..Len(r.mesh) }) = 1
+                          /\ r.width > Len(r.mesh[1])
+MixedSizes(r) == Cardinality({ Len(r.mesh[f]) : f \in 1..Len(r.mesh) }) >= 2
+
 Init == i \in { -b : b \in 1..NBlocks }
 Next == /\ i < 0
         /\ i' \in { k \in 1..Len(Recs) : (k - 1) \div Block = (-i) - 1 }
@@ -92,5 +99,7 @@ Next == /\ i < 0
 Judge == i > 0 =>
            LET r == Recs[i]
                f == Failed(r)
-           IN \A c \in f : PrintT(<<"V", i, c>>)      \* one short line per failed clause
+           IN /\ \A c \in f : PrintT(<<"V", i, c>>)      \* one short line per failed clause
+              /\ (UniformInWiderTable(r) => PrintT(<<"C", i, "UniformInWiderTable">>))
+              /\ ((MixedSizes(r) /\ Has(r, "handle") /\ r.handle = "slice") => PrintT(<<"C", i, "MixedSubset">>))
 =============================================================================
